@@ -267,7 +267,7 @@ type c06Alt struct {
 func TestVerifC06Deviations(t *testing.T) {
 	r := vkit.Start(t, "C06", "deviations", 240*time.Second, 1500*time.Second)
 	defer r.Finish()
-	r.Rule = "configurations {n=3 blind={1}, n=2 blind={}, n=3 blind={0,2}} x keyshare x witness on toy (thorough: + 1024-bit); every leaf of IssueCommitmentMessage and IssueSignatureMessage altered by {+1, =0, value of a parallel run (same key), value of a run under another key, deleted}; nonce1/nonce2/context altered and replayed across runs; non-trivial = alteration that changes the message by value; oracle: no credential is produced (issuer rejects the commitment proof or ConstructCredential returns an error); a panic is not a rejection"
+	r.Rule = "configurations {n=3 blind={1}, n=2 blind={}, n=3 blind={0,2}} x keyshare x witness on toy (thorough: + 1024-bit); every leaf of IssueCommitmentMessage and IssueSignatureMessage altered by {+1, =0, value of a parallel run (same key), value of a run under another key, deleted}; witness u / e altered, alone and together with every value of the unsigned Updated field; an accepted message object altered in place and presented again; nonce1/nonce2/context altered and replayed across runs; non-trivial = alteration that changes the message by value; oracle: no credential is produced (issuer rejects the commitment proof or ConstructCredential returns an error); a panic is not a rejection"
 	vfInstallEnv(t, "C06/dev", r.Seed)
 	keys := vkit.Pick([]string{"toyA"}, []string{"toyA", "k1024a"})
 	for _, keyName := range keys {
@@ -448,7 +448,34 @@ func TestVerifC06Deviations(t *testing.T) {
 						m.NonRevocationWitness.SignedAccumulator = c06CopyISM(foISM).NonRevocationWitness.SignedAccumulator
 					}},
 					m2alt{"msg2:witness.sacc:deleted", "signed accumulator deleted", func(m *IssueSignatureMessage) { m.NonRevocationWitness.SignedAccumulator = nil }},
-					m2alt{"msg2:witness.sacc", "signed accumulator byte flipped", func(m *IssueSignatureMessage) { m.NonRevocationWitness.SignedAccumulator.Data[10] ^= 1 }})
+					m2alt{"msg2:witness.sacc", "signed accumulator byte flipped", func(m *IssueSignatureMessage) { m.NonRevocationWitness.SignedAccumulator.Data[10] ^= 1 }},
+					m2alt{"msg2:witness.u", "witness u+1", func(m *IssueSignatureMessage) {
+						m.NonRevocationWitness.U = new(big.Int).Add(m.NonRevocationWitness.U, vfInt(1))
+					}},
+					m2alt{"msg2:witness.u", "witness u squared", func(m *IssueSignatureMessage) {
+						m.NonRevocationWitness.U = new(big.Int).Mod(new(big.Int).Mul(m.NonRevocationWitness.U, m.NonRevocationWitness.U), run.k.Pk.N)
+					}},
+					m2alt{"msg2:witness.e", "witness e+2", func(m *IssueSignatureMessage) {
+						m.NonRevocationWitness.E = new(big.Int).Add(m.NonRevocationWitness.E, vfInt(2))
+					}},
+					// cooperating pairs: the altered u together with every value of the unsigned bookkeeping field
+					m2alt{"msg2:pair:witness.u+updated", "witness u+1 and Updated = time of its accumulator", func(m *IssueSignatureMessage) {
+						m.NonRevocationWitness.U = new(big.Int).Add(m.NonRevocationWitness.U, vfInt(1))
+						cp := &revocation.SignedAccumulator{Data: append([]byte{}, m.NonRevocationWitness.SignedAccumulator.Data...), PKCounter: m.NonRevocationWitness.SignedAccumulator.PKCounter}
+						acc, err := cp.UnmarshalVerify(run.k.Pk)
+						if err != nil {
+							panic(err)
+						}
+						m.NonRevocationWitness.Updated = time.Unix(acc.Time, 0)
+					}},
+					m2alt{"msg2:pair:witness.u+updated", "witness u+1 and Updated = zero time", func(m *IssueSignatureMessage) {
+						m.NonRevocationWitness.U = new(big.Int).Add(m.NonRevocationWitness.U, vfInt(1))
+						m.NonRevocationWitness.Updated = time.Time{}
+					}},
+					m2alt{"msg2:pair:witness.u+updated", "witness u+1 and Updated = far future", func(m *IssueSignatureMessage) {
+						m.NonRevocationWitness.U = new(big.Int).Add(m.NonRevocationWitness.U, vfInt(1))
+						m.NonRevocationWitness.Updated = time.Unix(4102444800, 0)
+					}})
 			}
 			for _, a := range m2 {
 				msg := c06CopyISM(honestISM)
@@ -467,6 +494,45 @@ func TestVerifC06Deviations(t *testing.T) {
 					r.Violate("C06|credential-produced-despite-deviation|"+a.class, fmt.Sprintf("%s: %s", cfg, a.desc), rep)
 				default:
 					r.Outcome(a.class + ":holder-rejected")
+				}
+			}
+			// the same message object presented twice: accepted, then altered in place (witness u, signature
+			// A, v) and presented again to the same builder - whatever the first run left in the object or
+			// in the builder must not make the second run succeed
+			{
+				run := c06Start(cfg, "twice")
+				if ism, _ := run.issue(run.commit, run.nonce1, true); ism != nil {
+					obj := c06CopyISM(ism)
+					if c1, err1, pan1 := run.finish(obj); pan1 == "" && err1 == nil && c1 != nil {
+						for _, what := range []string{"witness u+1", "signature v+1"} {
+							if what == "witness u+1" && (!cfg.witness || obj.NonRevocationWitness == nil) {
+								continue
+							}
+							var undo func()
+							switch what {
+							case "witness u+1":
+								old := obj.NonRevocationWitness.U
+								obj.NonRevocationWitness.U = new(big.Int).Add(old, vfInt(1))
+								undo = func() { obj.NonRevocationWitness.U = old }
+							case "signature v+1":
+								old := obj.Signature.V
+								obj.Signature.V = new(big.Int).Add(old, vfInt(1))
+								undo = func() { obj.Signature.V = old }
+							}
+							r.Eval()
+							r.Nontrivial(cfg.String() + "|accepted object altered in place: " + what)
+							c2, err2, pan2 := run.finish(obj)
+							rep := map[string]any{"config": cfg.String(), "alteration": "accepted message object altered in place (" + what + ") and presented again"}
+							if pan2 != "" {
+								r.Violate("C06|panic-instead-of-rejection|holder|reuse:"+what, pan2, rep)
+							} else if err2 == nil && c2 != nil {
+								r.Violate("C06|credential-produced-despite-deviation|reuse:"+what, fmt.Sprintf("%s: the message object was accepted once, altered in place (%s) and accepted again", cfg, what), rep)
+							} else {
+								r.Outcome("reuse:" + what + ":holder-rejected")
+							}
+							undo()
+						}
+					}
 				}
 			}
 			// two cooperating alterations, one per message: the commitment handed to the issuer is U*X
